@@ -263,6 +263,35 @@ impl Property for C15 {
         prop_oneof![50 => addsub, 15 => div, 20 => strv, 15 => rnd].boxed()
     }
     fn check(&self, c: &Case) -> Verdict {
+        use std::sync::atomic::Ordering;
+        let (g0, f0) = (guard::GUARDED_ALLOCS.load(Ordering::Relaxed), guard::FALLBACKS.load(Ordering::Relaxed));
+        let v = self.check_inner(c);
+        let (g1, f1) = (guard::GUARDED_ALLOCS.load(Ordering::Relaxed), guard::FALLBACKS.load(Ordering::Relaxed));
+        if f1 != f0 || (g1 == g0 && v.is_ok()) {
+            // the memory oracle would be vacuous: never a verdict
+            eprintln!("HARNESS-ERROR: guard-page allocator inactive for a C15 case ({} guarded allocations, {} fallbacks)", g1 - g0, f1 - f0);
+            std::process::exit(2);
+        }
+        v
+    }
+    fn budget(&self, tier: Tier) -> Budget {
+        match tier {
+            Tier::Quick => Budget { release: 120_000, dbg: 60_000, workers: 8 },
+            Tier::Thorough => Budget { release: 6_000_000, dbg: 2_000_000, workers: 16 },
+        }
+    }
+    fn assumptions(&self) -> Vec<String> {
+        vec![
+            "an out-of-bounds access is detected when it leaves the block on the guarded side (past the end in END mode, before the start in START mode) - both modes are sampled equally; alignment slack is zero for u64 digit buffers".into(),
+            "every case verifies that the guard allocator actually served its allocations (guarded-allocation counter moved, no fallback to the system allocator); otherwise the run stops as inconclusive".into(),
+            "the asm operand declaration issue noted in DESIGN.md section 5 (in-register decremented) is invisible to input-driven testing in the two compiled profiles".into(),
+            "sanitizer-instrumented fuzzing of the non-asm unsafe code is part of the fuzz target (thorough tier), not of this check's verdict".into(),
+        ]
+    }
+}
+
+impl C15 {
+    fn check_inner(&self, c: &Case) -> Verdict {
         match c.op.as_str() {
             "guard.addsub" => addsub(c.n(0), c.n(1), c.i(2) != 0, c.i(3) != 0, c.i(4)),
             "guard.div" => division(c.n(0), c.n(1), c.i(2)),
@@ -279,19 +308,6 @@ impl Property for C15 {
             }
             o => Err(format!("unknown op {}", o)),
         }
-    }
-    fn budget(&self, tier: Tier) -> Budget {
-        match tier {
-            Tier::Quick => Budget { release: 120_000, dbg: 60_000, workers: 8 },
-            Tier::Thorough => Budget { release: 6_000_000, dbg: 2_000_000, workers: 16 },
-        }
-    }
-    fn assumptions(&self) -> Vec<String> {
-        vec![
-            "an out-of-bounds access is detected when it leaves the block on the guarded side (past the end in END mode, before the start in START mode) - both modes are sampled equally; alignment slack is zero for u64 digit buffers".into(),
-            "the asm operand declaration issue noted in DESIGN.md section 5 (in-register decremented) is invisible to input-driven testing in the two compiled profiles".into(),
-            "sanitizer-instrumented fuzzing of the non-asm unsafe code is part of the fuzz/ target (thorough tier), not of this check's verdict".into(),
-        ]
     }
 }
 
